@@ -11,6 +11,7 @@
 //! primitives:     `round_fract <base> <mode> <int> <fract> <digits>`  -> `ok <NoOp|AddOne|SubOne>`
 //!                 `round_ratio <mode> <int> <num> <den>`              -> `ok <NoOp|AddOne|SubOne>`
 //!                 `round_fract_any` / `round_ratio_any`: the same calls on arbitrary input (assertions may fire)
+//!                 `round_fract_half <base> <mode> <int> <digits> <delta> <+|->`: fract = +-(B^digits / 2 + delta)
 //! round 3 (a significand token `inf` / `-inf` gives the infinities in every float case):
 //!   wp2 <base> <mode> <precision> <sig> <exp> <np1> <np2>   with_precision(np1).value().with_precision(np2)
 //!                                     -> `ok <sig> <exp> <flag> <precision> <sig> <exp> <flag> <precision>`
@@ -79,6 +80,18 @@ fn run(op: &str, a: &[&str]) -> String {
             return with_float!("a", a[0], |R, B| {
                 let _ = B;
                 let r = <R as Round>::round_ratio(&ibig(a[1]), ibig(a[2]), &ibig(a[3]));
+                format!("ok {}", rounding_str(r))
+            });
+        }
+        // round 4: a fraction next to one half of B^k, built here so that k can be 2^24 and more (the f32 pre-filter of
+        // round_fract with a rounded `precision as f32`): fract = sgn * (B^k / 2 + delta)
+        "round_fract_half" => {
+            return with_float!(a[0], a[1], |R, B| {
+                let k = usz(a[3]);
+                let half: IBig = (UBig::from_word(B).pow(k) >> 1usize).into();
+                let f = half + ibig(a[4]);
+                let f = if a[5] == "-" { -f } else { f };
+                let r = <R as Round>::round_fract::<B>(&ibig(a[2]), f, k);
                 format!("ok {}", rounding_str(r))
             });
         }
